@@ -474,6 +474,15 @@ def miscOp (op : String) (args : List String) : Option String :=
   | "miller", [ps, qs] => do
       let ps ← (splitList ps).mapM A1.parse; let qs ← (splitList qs).mapM A2.parse
       pure (showFq12O (millerLoop (List.zip ps (qs.map G2Prepared.fromAffine))))
+  | "millerref", [ps, qs, pis, qis] => do
+      let ps ← (splitList ps).mapM A1.parse; let qs ← (splitList qs).mapM A2.parse
+      let pis ← (splitList pis).mapM parseHex; let qis ← (splitList qis).mapM parseHex
+      if pis.length != qis.length then none else
+      let prep := qs.map G2Prepared.fromAffine
+      let pairs ← (List.zip pis qis).mapM (fun (i, j) => do let p ← ps[i]?; let q ← prep[j]?; pure (p, q))
+      match millerLoop pairs with
+      | some m => pure (showOpt fq12IO.shw (finalExponentiation m))
+      | none => pure "PANIC"
   | "finalexp", [f] => do let f ← fq12IO.parse f; pure (showOpt fq12IO.shw (finalExponentiation f))
   | "pairprod", [p1, q1, p2, q2] => do
       let p1 ← A1.parse p1; let q1 ← A2.parse q1; let p2 ← A1.parse p2; let q2 ← A2.parse q2
